@@ -217,6 +217,42 @@ var ioInvalid = []ioInput{
 	{"text/css", "css", "invalid-nul", []byte("a{color:\x00red}")},
 }
 
+// ioEdges: documents that are empty after minification or end inside a construct (comment, CDATA, processing instruction,
+// string, attribute value, block): the places where a minifier leaves its main loop early and may skip the final probe write
+var ioEdges = []ioInput{
+	{"application/javascript", "js", "edge", []byte(" ")}, {"application/javascript", "js", "edge", []byte("// c\n")}, {"application/javascript", "js", "edge", []byte("/* c */")},
+	{"application/javascript", "js", "edge", []byte(";")}, {"application/javascript", "js", "edge", []byte("{}")}, {"application/javascript", "js", "edge", []byte("{;}")},
+	{"application/javascript", "js", "edge", []byte("#!/usr/bin/env node\n")}, {"application/javascript", "js", "edge", []byte("'use strict'")},
+	{"text/css", "css", "edge", []byte(" ")}, {"text/css", "css", "edge", []byte("/* c */")}, {"text/css", "css", "edge", []byte("a{}")}, {"text/css", "css", "edge", []byte("@media print{}")},
+	{"text/css", "css", "edge", []byte("a{color:red")}, {"text/css", "css", "edge", []byte("a{b:url(")}, {"text/css", "css", "edge", []byte("/* c")}, {"text/css", "css", "edge", []byte("a{b:'c")},
+	{"application/json", "json", "edge", []byte(" ")}, {"application/json", "json", "edge", []byte("[]")}, {"application/json", "json", "edge", []byte("{}")}, {"application/json", "json", "edge", []byte("[1,2")},
+	{"text/html", "html", "edge", []byte(" ")}, {"text/html", "html", "edge", []byte("<!-- c -->")}, {"text/html", "html", "edge", []byte("<!-- c")}, {"text/html", "html", "edge", []byte("<p>a</p><!--")},
+	{"text/html", "html", "edge", []byte("<script>")}, {"text/html", "html", "edge", []byte("<style>a{b:c}")}, {"text/html", "html", "edge", []byte("<a href=\"x")}, {"text/html", "html", "edge", []byte("<html><head></head><body></body></html>")},
+	{"text/html", "html", "edge", []byte("<svg><?pi")}, {"text/html", "html", "edge", []byte("<p>a<svg><path d=\"M0 0")}, {"text/html", "html", "edge", []byte("<textarea>")}, {"text/html", "html", "edge", []byte("<![CDATA[x")},
+	{"image/svg+xml", "svg", "edge", []byte(" ")}, {"image/svg+xml", "svg", "edge", []byte("<?xml version=\"1.0\"")}, {"image/svg+xml", "svg", "edge", []byte("<?xml version=\"1.0\"?>")},
+	{"image/svg+xml", "svg", "edge", []byte("<svg></svg><?render hint")}, {"image/svg+xml", "svg", "edge", []byte("<svg><?pi a")}, {"image/svg+xml", "svg", "edge", []byte("<svg><!-- c")}, {"image/svg+xml", "svg", "edge", []byte("<svg><![CDATA[ a")},
+	{"image/svg+xml", "svg", "edge", []byte("<svg><metadata><a>")}, {"image/svg+xml", "svg", "edge", []byte("<svg><g inkscape:x=\"1\"")}, {"image/svg+xml", "svg", "edge", []byte("<svg><foreignObject><p>")}, {"image/svg+xml", "svg", "edge", []byte("<svg><path d=\"M0 0")},
+	{"image/svg+xml", "svg", "edge", []byte("<!DOCTYPE svg [")}, {"image/svg+xml", "svg", "edge", []byte("<svg><style>a{")}, {"image/svg+xml", "svg", "edge", []byte("<metadata/>")}, {"image/svg+xml", "svg", "edge", []byte("<!-- only -->")},
+	{"text/xml", "xml", "edge", []byte(" ")}, {"text/xml", "xml", "edge", []byte("<?xml version=\"1.0\"")}, {"text/xml", "xml", "edge", []byte("<a/><?pi x")}, {"text/xml", "xml", "edge", []byte("<a><!-- c")},
+	{"text/xml", "xml", "edge", []byte("<a><![CDATA[ x")}, {"text/xml", "xml", "edge", []byte("<a b=\"c")}, {"text/xml", "xml", "edge", []byte("<!DOCTYPE a [")}, {"text/xml", "xml", "edge", []byte("<!-- only -->")},
+}
+
+// ioTruncated: the edge documents plus per media type n generated documents cut at a random byte offset
+func ioTruncated(r *h.RNG, n int) []ioInput {
+	out := append([]ioInput(nil), ioEdges...)
+	for _, t := range ioTypes {
+		for i := 0; i < n; i++ {
+			d := ioGen(r, t.pkg, 1+i%3)
+			if len(d) < 2 {
+				continue
+			}
+			cut := 1 + r.Intn(len(d)-1)
+			out = append(out, ioInput{t.mt, t.pkg, fmt.Sprintf("truncated#%d@%d", i, cut), d[:cut]})
+		}
+	}
+	return out
+}
+
 // ioCorpus returns the corpus / benchmark files of the six media types up to maxSize bytes
 // (larger files contribute their first maxSize bytes when prefixes is set).
 func ioCorpus(repo string, maxSize int, prefixes bool) []ioInput {
